@@ -126,7 +126,8 @@ Definition plsr_same (ra rb : res (plsr (F:=Z))) : bool :=
 
 (* ---- the regressors' loop ---- *)
 Definition znorm (t : tensor Z) : Z := zsqrt (fold_left (fun acc x => Z.add acc (fmul Zfx x x)) (data t) 0%Z).
-Definition zsmall (tol : Z) (a b : Z) : bool := Z.leb (fdiv Zfx (Z.abs (a - b)) a) tol.
+(* the stopping test of the source (Model/RegressObj.rel_small; re-derived from the Python source on every run) *)
+Definition zsmall (tol : Z) (a b : Z) : bool := rel_small Zfx tol a b.
 Definition zclose (a b : Z) : bool :=       (* |a - b| <= 1e-7 (1 + |a| + |b|) in fixed point *)
   Z.leb (Z.abs (a - b) * 10000000) (Z.shiftl 1 fxb + Z.abs a + Z.abs b).
 Definition zt_close (a b : tensor Z) : bool := nat_list_eqb (shape a) (shape b) && all2 zclose (data a) (data b).
